@@ -327,7 +327,7 @@ func init() {
 				}
 				v = Val{S: iv, T: types.NewPointer(bt)}
 			case n == "bytes":
-				bs := e.freshVal(c.st, "unpbytes", types.NewSlice(types.Typ[types.Uint8]))
+				bs := e.freshVal(c.st, "unpbytes", types.NewSlice(types.Universe.Lookup("byte").Type()))
 				e.assumeIn(c.st, eq(e.bvOf(c.st, bs), app("unav_bytes", av)))
 				v = bs
 			case n == "address":
@@ -348,6 +348,29 @@ func init() {
 		er := e.vc.fresh("unpackerr", "Iface")
 		return Val{T: c.rt, Tup: []Val{{S: ite(eq(er, "iface_nil"), out, "(mk_slice 0 0 0)"), T: tt.At(0).Type()}, {S: er, T: tt.At(1).Type()}}}
 	}
+	// reflect.TypeOf(x).Kind(): the kind of the dynamic type of x (a function of its type tag; known for the basic
+	// types an ABI decoder produces)
+	libSpecs["reflect.TypeOf"] = func(c *callCtx) Val {
+		e := c.e()
+		e.vc.declFun("rt_tag", []string{"Iface"}, "Int")
+		r := e.vc.fresh("rtype", "Iface")
+		e.assumeIn(c.st, and(eq(app("rt_tag", r), app("typeof", c.args[0].S)), not(eq(r, "iface_nil"))))
+		return c.ret(r)
+	}
+	invokeSpecs["(reflect.Type).Kind"] = func(c *callCtx) Val {
+		e := c.e()
+		e.vc.declFun("rt_tag", []string{"Iface"}, "Int")
+		e.vc.declFun("rkind_of_tag", []string{"Int"}, "Int")
+		for _, kt := range []struct {
+			t types.Type
+			k int
+		}{{types.Typ[types.Bool], 1}, {types.Typ[types.String], 24}, {types.Typ[types.Uint64], 11}, {types.Typ[types.Int64], 6}} {
+			tag, _ := e.typeTag(kt.t)
+			e.vc.declSort(fmt.Sprintf("(assert (= (rkind_of_tag %d) %d))", tag, kt.k))
+		}
+		return c.def("rkind", app("rkind_of_tag", app("rt_tag", c.args[0].S)))
+	}
+	invokeMods["(reflect.Type).Kind"] = func(e *Engine, cc *ssa.CallCommon) []string { return nil }
 	// common.BytesToAddress(b): the last 20 bytes of b, left-padded: ethaddr(content of b)
 	libSpecs["github.com/ethereum/go-ethereum/common.BytesToAddress"] = func(c *callCtx) Val {
 		e := c.e()
